@@ -543,7 +543,7 @@ fn main() {
                     "action": partd::Action::ALL.iter().map(|a| a.name()).collect::<Vec<_>>(),
                     "stream_kind": ["uni", "bi (actions on the opener's send half / the acceptor's receive half; the other direction stays open)", "none (datagram actions)"],
                     "payload_written_and_read_before_the_idle_period": tier.pick(vec![0, 1, 1200], vec![0, 1, 1200, 70000]),
-                    "datagram_size": [0, 1, "min(1200, max_datagram_size)"],
+                    "datagram_size": [0, 1, 1000],
                     "side_that_opens_and_writes": ["cli", "srv"],
                     "excluded": "stop / drop-recv-stream with payload 0 (the reader has no handle of a stream nothing was sent on)",
                     "rows": rows_d.iter().filter(|p| matches!(p, partd::DPlan::Idle { .. })).count(),
